@@ -40,6 +40,7 @@ type EntrySpec struct {
 	TimeoutMs     int            `json:"solver_timeout_ms"`
 	Unwind        int            `json:"unwind"`
 	Fallback      string         `json:"fallback"`
+	DeadlockOK    bool           `json:"deadlock_ok"`
 }
 
 type UnitSpec struct {
@@ -101,6 +102,7 @@ func CheckMain(args []string) int {
 	repo := fs.String("repo", "/repo", "")
 	only := fs.String("entry", "", "run only this entry")
 	workers := fs.Int("workers", 16, "")
+	index := fs.Int("index", -1, "run only the i-th entry (0-based, over all units)")
 	if len(args) == 0 {
 		fmt.Fprintln(os.Stderr, "usage: gosx check <property> [--tier quick|thorough]")
 		return 2
@@ -117,13 +119,13 @@ func CheckMain(args []string) int {
 	if s := os.Getenv("VERIF_SEED"); s != "" {
 		seed, _ = strconv.Atoi(s)
 	}
-	c := &checker{prop: prop, tier: *tier, verif: *verif, repo: *repo, seed: seed, only: *only, workers: *workers}
+	c := &checker{prop: prop, tier: *tier, verif: *verif, repo: *repo, seed: seed, only: *only, workers: *workers, index: *index}
 	return c.run()
 }
 
 type checker struct {
 	prop, tier, verif, repo, only string
-	seed, workers                 int
+	seed, workers, index, entryNo int
 	spec                          CheckSpec
 	known                         KnownFile
 	reports                       []entryReport
@@ -217,6 +219,11 @@ func (c *checker) runUnit(ui int, u UnitSpec) {
 		return
 	}
 	for _, e := range u.Entries {
+		no := c.entryNo
+		c.entryNo++
+		if c.index >= 0 && no != c.index {
+			continue
+		}
 		if c.only != "" && e.Func != c.only {
 			continue
 		}
@@ -274,6 +281,7 @@ func (c *checker) runEntry(p *Program, u UnitSpec, e EntrySpec, work string) {
 	cfg.SymIndexLimit = e.SymIndexLimit
 	cfg.Unwind = e.Unwind
 	cfg.Fallback = e.Fallback
+	cfg.DeadlockOK = e.DeadlockOK
 	cfg.SolverTimeoutMs = e.TimeoutMs
 	if cfg.SolverTimeoutMs == 0 {
 		if c.tier == "thorough" {
